@@ -291,8 +291,14 @@ def matcher_objects(ctx, pool, rng):
                     for pats, kw in (('**/a*', {}), (['*.txt', 'b?'], {'exclude': 'c*'}), (b'**/a*', {})):
                         try:
                             m1 = mod.compile(pats, flags=fl, **kw)
+                            again = [mod.compile(pats, flags=fl, **kw) for _ in range(3)]
                         except Exception:  # noqa: BLE001
                             continue
+                        ctx.count('matcher_object_checks')
+                        if any(not (x == m1 and hash(x) == hash(m1)) for x in again):
+                            ctx.disagree('matchers built repeatedly from the same arguments are not equal / hash-equal',
+                                         {'mode': 'flag-table', 'module': mod.__name__, 'flags': [n1] + list(extra), 'patterns': repr(pats), 'kw': repr(kw)})
+                            break
                         for what, mk in (('pickle', lambda: pickle.loads(pickle.dumps(m1))), ('copy.copy', lambda: copy.copy(m1)),
                                          ('copy.deepcopy', lambda: copy.deepcopy(m1)),
                                          ('pickle protocol 2', lambda: pickle.loads(pickle.dumps(m1, protocol=2)))):
